@@ -631,6 +631,21 @@ func otherWire6(line string) []byte {
 	return genMsg6(NewRng(hashStr(line)^0x1111), 2, false).ToBytes()
 }
 
+// checkPrivate: two values decoded separately own separate memory: no table, pool
+// or shared empty list stands behind both (a write into one, e.g. into a decoded
+// prefix mask, would otherwise change the other and every value decoded later).
+func (c *c08run) checkPrivate(line string, a, b any) {
+	sc := newScanner(nil)
+	for i, o := range []any{a, b} {
+		sc.root = i
+		v := reflect.ValueOf(o)
+		sc.walk(v, "", typeName(v.Type()), 0)
+	}
+	for _, o := range sc.overlaps(true) {
+		c.fail(line, "decoded-values-share-memory", "two separately decoded values: "+o)
+	}
+}
+
 func (c *c08run) v6(wire []byte, tag string) {
 	line := "c08v6 " + hx(wire)
 	buf := ownBuf(wire, 16)
@@ -640,6 +655,9 @@ func (c *c08run) v6(wire []byte, tag string) {
 		return
 	}
 	c.checkDecoded(line, m, buf, func() *snapshot { return snap6(m) }, otherWire6(line))
+	if m2, err := dhcpv6.FromBytes(ownBuf(wire, 0)); err == nil {
+		c.checkPrivate(line, m, m2)
+	}
 	c.checkOutput(line, m, m.ToBytes, func() *snapshot { return snap6(m) })
 	// the specific entry points, pointer scan only
 	buf2 := ownBuf(wire, 0)
@@ -662,6 +680,9 @@ func (c *c08run) v4(wire []byte, tag string) {
 	}
 	other := genPkt4(NewRng(hashStr(line)^0x2222), true).ToBytes()
 	c.checkDecoded(line, p, buf, func() *snapshot { return snap4(p) }, other)
+	if p2, err := dhcpv4.FromBytes(ownBuf(wire, 0)); err == nil {
+		c.checkPrivate(line, p, p2)
+	}
 	c.checkOutput(line, p, p.ToBytes, func() *snapshot { return snap4(p) })
 }
 
